@@ -17,6 +17,7 @@ ASSUMPTIONS = ['clang-14 -O1 lowering is correct', 'x86 intrinsic models (cvt* p
                'scalar fptosi/fptoui out of range is poison (a fresh value): results depending on it cannot be proved']
 MIN_COVERED = {'quick': 5000, 'thorough': 9000}
 TIMEOUT = {'quick': 120, 'thorough': 900}
+NAME_MEMORY_BYTES = True
 
 
 def kernels(tier, seed):
@@ -54,6 +55,10 @@ def assume(run):
             out.append(z3.ULE(base, z3.BitVecVal((1 << 64) - 1 - 4096, 64)))
             if k.meta.get('aligned'):
                 out.append(z3.URem(base, z3.BitVecVal(regbytes(k), 64)) == 0)
+            else:
+                # a T* always points to a properly aligned T (alignof == sizeof for the arithmetic element types)
+                el = TYPES[k.meta['from'] if k.op.startswith('load') else k.meta['to']][1] // 8
+                out.append(z3.URem(base, z3.BitVecVal(el, 64)) == 0)
     return out
 
 
@@ -90,7 +95,7 @@ def obligations(run):
         for i in range(n):
             a = elem(run, 'a', i, sz)
             pre, post = conv_spec(f, t, a)
-            obs.append(Oblig(op, pre, (lambda i, post: lambda res: post(res.val[i]))(i, post), lane=i))
+            obs.append(Oblig(op, pre, (lambda i, post: lambda res: post(res.val[i]))(i, post), lane=i, rename={}))
         obs += access_obligs(run, k, 'a', n * sz, 'rw')
     elif op.startswith('store_as'):
         n = lanes(f, k.arch); sz = wt // 8
@@ -100,7 +105,7 @@ def obligations(run):
             def got(res, i=i):
                 bs = [tobv(res.byte('a', i * sz + q), 8) for q in reversed(range(sz))]
                 return z3.Concat(*bs) if sz > 1 else bs[0]
-            obs.append(Oblig(op, pre, (lambda i, post, got: lambda res: post(got(res)))(i, post, got), lane=i, kind='mem'))
+            obs.append(Oblig(op, pre, (lambda i, post, got: lambda res: post(got(res)))(i, post, got), lane=i, kind='mem', rename={x[i].decl().name(): 'a'}))
         for off in list(range(-32, 0)) + list(range(n * sz, n * sz + 32)):
             obs.append(Oblig(op + '.outside', True, (lambda off: lambda res: tobv(res.byte('a', off), 8) == run.mem0('a', off))(off), lane=off, kind='mem'))
         obs += access_obligs(run, k, 'a', n * sz, 'rw')
